@@ -41,6 +41,9 @@ Definition is_mapped (b : list N) : bool := str_eqb (firstn 12 b) MAPPED_PREFIX.
 Definition bytes128 (x : N) : list N :=
   map (fun i => N.land (N.shiftr x (120 - 8 * N.of_nat i)) 255) (seq 0 16).
 
+(* the family-tagged denotation of a well-formed string *)
+Inductive denot := D4 (bs : list N) (m : option N) | D6 (b : list N) (m : option N).
+
 Section V6.
   Variable pton : str -> pres.
   Variable ntop : list N -> str.
@@ -116,4 +119,18 @@ Section V6.
     if is_match4 s then strip_mask4 raise_error s else strip_mask6 raise_error s.
   Definition net_address_ip (raise_error : bool) (s : str) : res :=
     if is_match4 s then net_address4 raise_error s else net_address6 raise_error s.
+
+  (* what a string denotes for the generic normalize: None = malformed *)
+  Definition denote_ip (s : str) : option denot :=
+    match unwrap s with
+    | Ok v => if is_match4 v then option_map (fun d => D4 (fst d) (snd d)) (parse4 v)
+              else option_map (fun d => D6 (fst d) (snd d)) (parse6 v)
+    | Exc _ => None
+    end.
 End V6.
+
+(* finite-table oracles used by the executable model (filled by the harness from libc) *)
+Definition tab_pton (t : list (str * pres)) (s : str) : pres :=
+  match find (fun e => str_eqb (fst e) s) t with Some e => snd e | None => POSError end.
+Definition tab_ntop (t : list (list N * str)) (b : list N) : str :=
+  match find (fun e => str_eqb (fst e) b) t with Some e => snd e | None => [] end.
